@@ -146,6 +146,57 @@ def read_init(fn, const_term):
             "varnames": list(fn.__code__.co_varnames), "body": body}
 
 
+def read_union_init(fn, const_term):
+    ins = _ins(fn)
+    stores, pos = [], 0
+    if fn.__defaults__ is None or any(d is not None for d in fn.__defaults__) or len(fn.__defaults__) != fn.__code__.co_argcount - 1 \
+            or fn.__code__.co_kwonlyargcount or fn.__code__.co_flags & 0x0C:
+        raise Shape("parameters: every member is an optional positional-or-keyword parameter defaulting to None")
+    obj = sa = None
+    while pos < len(ins):
+        if ins[pos].opname == "RETURN_CONST" and pos == len(ins) - 1 and ins[pos].argval is None:
+            break
+        g = _expect(ins, pos, "LOAD_GLOBAL")
+        a = _expect(ins, pos + 1, "LOAD_ATTR")
+        if g.arg & 1 or not a.arg & 1 or (obj is not None and (obj, sa) != (g.arg >> 1, a.arg >> 1)):
+            raise Shape("the call is not <global>.<method>(...)")
+        obj, sa = g.arg >> 1, a.arg >> 1
+        _expect(ins, pos + 2, "LOAD_FAST", 0)
+        k = _expect(ins, pos + 3, "LOAD_CONST")
+        v = _expect(ins, pos + 4, "LOAD_FAST").arg
+        j = _expect(ins, pos + 5, "POP_JUMP_IF_NONE")
+        _expect(ins, pos + 6, "LOAD_FAST", v)
+        if pos + 7 < len(ins) and ins[pos + 7].opname == "JUMP_FORWARD":
+            c = _expect(ins, pos + 8, "LOAD_CONST")
+            call = _expect(ins, pos + 9, "CALL", 3)
+            _expect(ins, pos + 10, "POP_TOP")
+            if j.argval != c.offset or ins[pos + 7].argval != call.offset:
+                raise Shape("jump targets of a conditional store")
+            stores.append((v, k.arg, c.arg))
+            pos += 11
+        else:
+            _expect(ins, pos + 7, "CALL", 3)
+            _expect(ins, pos + 8, "POP_TOP")
+            r1 = _expect(ins, pos + 9, "RETURN_CONST")
+            c = _expect(ins, pos + 10, "LOAD_CONST")
+            _expect(ins, pos + 11, "CALL", 3)
+            _expect(ins, pos + 12, "POP_TOP")
+            r2 = _expect(ins, pos + 13, "RETURN_CONST")
+            if j.argval != c.offset or r1.argval is not None or r2.argval is not None or len(ins) != pos + 14:
+                raise Shape("tail of the union's __init__")
+            stores.append((v, k.arg, c.arg))
+            pos += 14
+            break
+    if obj is None:
+        raise Shape("a union without members")
+    body = f"(BInitU {obj} {sa} " + clist((f"({cnat(v)}, {cnat(k)}, {cnat(c)})" for v, k, c in stores), "nat * nat * nat") + ")"
+    consts = []
+    for i, c in enumerate(fn.__code__.co_consts):
+        # member names are the constants at the odd places
+        consts.append(f"(CStr {cstr(c)})" if isinstance(c, str) and i % 2 == 1 else const_term(c))
+    return {"names": list(fn.__code__.co_names), "consts": consts, "varnames": list(fn.__code__.co_varnames), "body": body}
+
+
 def code_term(d) -> str:
     return (f"(mkCode {clist(map(cstr, d['names']), 'string')} {clist(d['consts'], 'cst Z')} "
             f"{clist(map(cstr, d['varnames']), 'string')} {d['body']})")
